@@ -308,7 +308,9 @@ pub fn c06(seed: u64, tier: Tier) -> Vec<Episode> {
         name = "cyclic";
         // a fixed update cycle repeated many times: returns to the same logical contents
         let nk = g.rng.range(2, 8) as usize;
-        let keys = g.alphabet(kt, nk, KeyDist::Boundary, None);
+        // now and then long keys: large slots exist in the key file too
+        let ckd = *g.rng.pick(&[KeyDist::Boundary, KeyDist::Boundary, KeyDist::Mixed]);
+        let keys = g.alphabet(kt, nk, ckd, None);
         let lvd = *g.rng.pick(&[ValDist::Mixed, ValDist::Mixed, ValDist::LargeChurn]);
         let lens: Vec<usize> = (0..6).map(|_| g.val_len(lvd)).collect();
         let mut cycle: Vec<(usize, Option<usize>)> = Vec::new();
@@ -348,7 +350,8 @@ pub fn c06(seed: u64, tier: Tier) -> Vec<Episode> {
         w.reopen = 1;
         w.empty_out = *g.rng.pick(&[0u32, 0, 1]);
         let vd = *g.rng.pick(&[ValDist::Mixed, ValDist::Mixed, ValDist::LargeChurn]);
-        let cfg = HistCfg { maps: maps.clone(), alphabet: g.rng.range(2, 20) as usize, kd: KeyDist::Boundary, vd, steps: g.rng.range(10, if vd == ValDist::LargeChurn { 60 } else { 200 }) as usize, w, one_bucket: false, reopen_params: false, xproc_every: 0, bulk_max: 5 };
+        let kd6 = *g.rng.pick(&[KeyDist::Boundary, KeyDist::Boundary, KeyDist::Mixed, KeyDist::Long]);
+        let cfg = HistCfg { maps: maps.clone(), alphabet: g.rng.range(2, 20) as usize, kd: kd6, vd, steps: g.rng.range(10, if vd == ValDist::LargeChurn { 60 } else { 200 }) as usize, w, one_bucket: false, reopen_params: false, xproc_every: 0, bulk_max: 5 };
         st = history(&mut g, &cfg);
         st.push(Step::Stats { h: 0 });
     }
